@@ -12,6 +12,7 @@ says so.  Helper lemmas live in `LA/Lemmas/*.lean`.
 import LA.Lemmas.Ctr
 import LA.Lemmas.ZipCrypt
 import LA.Lemmas.Passphrase
+import LA.Lemmas.WinZipAes
 set_option linter.unusedSimpArgs false
 namespace LA.C20
 
@@ -291,5 +292,208 @@ theorem right_passphrase_found (cap : Nat) (m : P → Bool) (s : St) (k : Nat)
 example : ([[1], [2], [3]] : List P)[1] = [2] := rfl
 
 end passphrase
+
+/-! ## 4. WinZip-AES entry layout, authentication code, wrong passphrase -/
+section winzip
+open LA.WinZipAes LA.Passphrase LA.Gen.Crypt
+
+/-- The constants of writer and reader agree (all extracted from the C): header size
+= salt + 2-byte verification value; the reader's strength table maps the strength
+byte the writer stores to the salt/key lengths the writer used; same authentication
+code size; same PBKDF2 round count; the derived-key buffer is large enough. -/
+theorem winzip_constants :
+    (∀ enc : Enc, enc.headerSize = enc.saltLen + 2) ∧
+    (∀ enc : Enc, strengthR enc.strengthByte = some (enc.saltLen, enc.keyLen)) ∧
+    authCodeSizeR = authCodeSizeW ∧ kdfRoundsR = kdfRoundsW ∧
+    (∀ enc : Enc, enc.keyLen * 2 + 2 ≤ aesMaxKeySize * 2 + 2) ∧
+    encHeaderSizeR = tradHeaderSizeW := by
+  refine ⟨?_, strengthR_enc, rfl, rfl, ?_, rfl⟩ <;> intro enc <;> cases enc <;> decide
+
+/-- What a successful read of the writer's bytes looks like. -/
+def ReadsBack (r : ReadResult) (payload : List UInt8) (st' : St) (n : Nat) : Prop :=
+  r.status = .ok ∧ r.data = payload ∧ r.st = st' ∧ r.consumed = n
+
+/-- `winzip_layout`: for AES-128 and AES-256, every passphrase, every salt, every payload
+(any length, cut into any chunks for the cipher), PBKDF2/HMAC/AES being arbitrary
+functions that return the lengths they are asked for:
+the writer emits salt ‖ pwv(2) ‖ cipher text ‖ MAC(10); its own byte count
+(`entry_compressed_written`, and the size it declares up front for a stored entry of
+known size) is exactly that length; and the reader, positioned at these bytes with
+that size and a passphrase state whose retry loop arrives at the same passphrase,
+finds every field at the offset where the writer put it: it returns the payload
+with ARCHIVE_OK, the authentication code matches, and it consumes exactly the
+entry's bytes (whatever follows). -/
+theorem winzip_layout (pr : Prims)
+    (hkdf : ∀ p s r n, (pr.kdf p s r n).length = n)
+    (hmacLen : ∀ k m, authCodeSize ≤ (pr.hmac k m).length)
+    (enc : Enc) (pw : P) (salt : List UInt8) (hsalt : salt.length = enc.saltLen)
+    (payload : List (List UInt8)) :
+    ∃ w, writeEntry pr enc pw salt payload = some w ∧
+      w.bytes.length = enc.saltLen + 2 + payload.flatten.length + authCodeSize ∧
+      w.compressedWritten = w.bytes.length ∧
+      declaredCompressedSize enc payload.flatten.length = w.bytes.length ∧
+      ∀ (st st' : St) (t : Nat) (trailing : List UInt8),
+        retryLoop retryCapAes
+          (pwvMatches pr (w.bytes.take enc.saltLen) enc.keyLen ((w.bytes.drop enc.saltLen).take 2)) st 0
+            = .found st' pw t →
+        ReadsBack (readEntry pr enc.strengthByte w.compressedWritten (w.bytes ++ trailing) st)
+          payload.flatten st' w.bytes.length := by
+  obtain ⟨v0, v1, h0, h1, hw⟩ := writeEntry_eq pr hkdf enc pw salt payload
+  refine ⟨_, hw, ?_, ?_, ?_, ?_⟩
+  all_goals simp only
+  · have hm : (macOf pr enc pw salt (cipherOf pr enc pw salt payload.flatten)).length = authCodeSize := by
+      simp only [macOf, List.length_take]; have := hmacLen
+        (((dkW pr enc pw salt).drop enc.keyLen).take enc.keyLen) (cipherOf pr enc pw salt payload.flatten)
+      omega
+    simp [List.length_append, cipherOf_length, hm, hsalt] <;> omega
+  · have hm : (macOf pr enc pw salt (cipherOf pr enc pw salt payload.flatten)).length = authCodeSize := by
+      simp only [macOf, List.length_take]; have := hmacLen
+        (((dkW pr enc pw salt).drop enc.keyLen).take enc.keyLen) (cipherOf pr enc pw salt payload.flatten)
+      omega
+    simp [List.length_append, cipherOf_length, hm, hsalt] <;> omega
+  · have hm : (macOf pr enc pw salt (cipherOf pr enc pw salt payload.flatten)).length = authCodeSize := by
+      simp only [macOf, List.length_take]; have := hmacLen
+        (((dkW pr enc pw salt).drop enc.keyLen).take enc.keyLen) (cipherOf pr enc pw salt payload.flatten)
+      omega
+    have hh := winzip_constants.1 enc
+    simp [declaredCompressedSize, List.length_append, cipherOf_length, hm, hsalt, hh] <;> omega
+  · intro st st' t trailing hfound
+    have hst : salt.take enc.saltLen = salt := List.take_of_length_le (by omega)
+    have hm : (macOf pr enc pw salt (cipherOf pr enc pw salt payload.flatten)).length = authCodeSizeR := by
+      simp only [macOf, List.length_take]; have := hmacLen
+        (((dkW pr enc pw salt).drop enc.keyLen).take enc.keyLen) (cipherOf pr enc pw salt payload.flatten)
+      have e : authCodeSize = authCodeSizeR := rfl
+      omega
+    rw [hst] at hfound ⊢
+    have ht1 : (salt ++ [v0, v1] ++ cipherOf pr enc pw salt payload.flatten ++
+        macOf pr enc pw salt (cipherOf pr enc pw salt payload.flatten)).take enc.saltLen = salt := by
+      rw [← hsalt]; simp [List.append_assoc, List.take_append_of_le_length]
+    have ht2 : ((salt ++ [v0, v1] ++ cipherOf pr enc pw salt payload.flatten ++
+        macOf pr enc pw salt (cipherOf pr enc pw salt payload.flatten)).drop enc.saltLen).take 2 = [v0, v1] := by
+      rw [← hsalt]; simp [List.append_assoc]
+    rw [ht1, ht2] at hfound
+    have hcw : (salt ++ [v0, v1]).length + (cipherOf pr enc pw salt payload.flatten).length + authCodeSize =
+        enc.saltLen + 2 + (cipherOf pr enc pw salt payload.flatten).length + authCodeSizeR := by
+      have e : authCodeSize = authCodeSizeR := rfl
+      simp [List.length_append, hsalt, e]
+    rw [hcw, readEntry_layout pr enc.strengthByte enc.saltLen enc.keyLen (strengthR_enc enc) salt [v0, v1]
+      (cipherOf pr enc pw salt payload.flatten)
+      (macOf pr enc pw salt (cipherOf pr enc pw salt payload.flatten)) trailing hsalt rfl hm st st' pw t hfound]
+    have hr : kdfRoundsR = kdfRoundsW := rfl
+    refine ⟨?_, ?_, rfl, ?_⟩
+    · simp only [macOf, dkW, hr]
+      have e : authCodeSize = authCodeSizeR := rfl
+      simp [e]
+    · simp only [cipherOf, dkW, hr, LA.Ctr.xorStream_involutive]
+    · have e : authCodeSize = authCodeSizeR := rfl
+      simp [List.length_append, hsalt, hm, e]; omega
+
+/-- non-vacuity of `winzip_layout`: primitives that return the requested lengths, and a
+passphrase state whose loop finds the passphrase at once -/
+example : ∃ pr : Prims, (∀ p s r n, (pr.kdf p s r n).length = n) ∧
+    (∀ k m, authCodeSize ≤ (pr.hmac k m).length) :=
+  ⟨{ kdf := fun p _ _ n => (List.range n).map (fun i => (p.length + i).toUInt8),
+     hmac := fun k m => List.replicate 20 (k.length + m.length).toUInt8,
+     aes := fun k b => b.map (· + k.length.toUInt8) },
+   by intro p s r n; simp, by intro k m; simp [authCodeSize, authCodeSizeW]⟩
+
+/-- `mac_mismatch_rejected` (`check_authentication_code`): on a well-formed entry area whose
+stored 10-byte authentication code differs from HMAC(key derived from the accepted
+passphrase, cipher text) the reader does not finish with ARCHIVE_OK: the last
+`read_data` call returns ARCHIVE_WARN ("ZIP bad Authentication code").  This covers
+both a modified cipher text / code and a passphrase that passed the 2-byte
+verification value by accident but derives a different key. -/
+theorem mac_mismatch_rejected (pr : Prims) (strength saltLen keyLen : Nat)
+    (hs : strengthR strength = some (saltLen, keyLen))
+    (salt pv ct mac trailing : List UInt8)
+    (hsl : salt.length = saltLen) (hpv : pv.length = 2) (hml : mac.length = authCodeSizeR)
+    (st st' : St) (pw : P) (t : Nat)
+    (hfound : retryLoop retryCapAes (pwvMatches pr salt keyLen pv) st 0 = .found st' pw t)
+    (hdiff : (pr.hmac (((pr.kdf pw salt kdfRoundsR (keyLen * 2 + 2)).drop keyLen).take keyLen) ct).take
+                authCodeSizeR ≠ mac) :
+    (readEntry pr strength (saltLen + 2 + ct.length + authCodeSizeR)
+        (salt ++ pv ++ ct ++ mac ++ trailing) st).status = .warn := by
+  rw [readEntry_layout pr strength saltLen keyLen hs salt pv ct mac trailing hsl hpv hml st st' pw t hfound]
+  simp [hdiff]
+
+/-- …and conversely a matching code gives ARCHIVE_OK (the check is not vacuous). -/
+theorem mac_match_accepted (pr : Prims) (strength saltLen keyLen : Nat)
+    (hs : strengthR strength = some (saltLen, keyLen))
+    (salt pv ct mac trailing : List UInt8)
+    (hsl : salt.length = saltLen) (hpv : pv.length = 2) (hml : mac.length = authCodeSizeR)
+    (st st' : St) (pw : P) (t : Nat)
+    (hfound : retryLoop retryCapAes (pwvMatches pr salt keyLen pv) st 0 = .found st' pw t)
+    (hsame : (pr.hmac (((pr.kdf pw salt kdfRoundsR (keyLen * 2 + 2)).drop keyLen).take keyLen) ct).take
+                authCodeSizeR = mac) :
+    (readEntry pr strength (saltLen + 2 + ct.length + authCodeSizeR)
+        (salt ++ pv ++ ct ++ mac ++ trailing) st).status = .ok := by
+  rw [readEntry_layout pr strength saltLen keyLen hs salt pv ct mac trailing hsl hpv hml st st' pw t hfound]
+  simp [hsame]
+
+/-- `wrong_passphrase_rejected` at entry level, WinZip AES: if no passphrase that can come
+up derives the stored 2-byte verification value, the entry's data read ends with
+ARCHIVE_FAILED, not one byte is handed out and nothing is consumed — for every
+entry area, size, strength, list, callback. -/
+theorem winzip_wrong_passphrase_rejected (pr : Prims) (strength saltLen keyLen : Nat)
+    (hs : strengthR strength = some (saltLen, keyLen))
+    (compressedSize : Nat) (bytes : List UInt8) (hlen : saltLen + 2 ≤ bytes.length) (s : St)
+    (hw : AllWrong (pwvMatches pr (bytes.take saltLen) keyLen ((bytes.drop saltLen).take 2)) s) :
+    (readEntry pr strength compressedSize bytes (reset s)).status = .failed ∧
+    (readEntry pr strength compressedSize bytes (reset s)).data = [] ∧
+    (readEntry pr strength compressedSize bytes (reset s)).consumed = 0 := by
+  obtain ⟨s', t, w, h⟩ := wrong_passphrase_rejected retryCapAes _ s hw
+  have hl : ¬ bytes.length < saltLen + 2 := by omega
+  simp only [readEntry, hs, hl, if_false, h, and_self]
+
+/-- The same for traditional PKWARE encryption: no candidate passes the 1-byte header
+check ⇒ ARCHIVE_FAILED and no data.  (A wrong passphrase passes this check with
+probability 1/256; what it then decrypts to is caught, if at all, by the CRC-32
+at the end of the entry, which is outside this model.) -/
+theorem trad_wrong_passphrase_rejected (zcrc : UInt32 → UInt8 → UInt32) (decdat : UInt8)
+    (compressedSize : Nat) (bytes : List UInt8)
+    (hlen : LA.ZipCrypt.headerSize ≤ compressedSize ∧ compressedSize ≤ bytes.length) (s : St)
+    (hw : AllWrong (fun pw => LA.ZipCrypt.accepts zcrc pw (bytes.take 12) decdat) s) :
+    (readTraditional zcrc decdat compressedSize bytes (reset s)).status = .failed ∧
+    (readTraditional zcrc decdat compressedSize bytes (reset s)).data = [] := by
+  obtain ⟨s', t, w, h⟩ := wrong_passphrase_rejected retryCapTrad _ s hw
+  have hl : ¬ (compressedSize < LA.ZipCrypt.headerSize ∨ bytes.length < compressedSize) := by omega
+  simp only [readTraditional, hl, if_false, h, and_self]
+
+/-- Traditional PKWARE, right passphrase: what `writeHeader` + `encLoop` produce is read
+back (header accepted, payload returned, all bytes consumed). -/
+theorem trad_entry_reads_back (zcrc : UInt32 → UInt8 → UInt32) (pw rnd11 : List UInt8) (chk : UInt8)
+    (payload trailing : List UInt8) (st st' : St) (t : Nat)
+    (hfound : retryLoop retryCapTrad
+      (fun p => LA.ZipCrypt.accepts zcrc p (LA.ZipCrypt.writeHeader zcrc pw rnd11 chk).2 chk) st 0 = .found st' pw t) :
+    ReadsBack (readTraditional zcrc chk (12 + payload.length)
+        ((LA.ZipCrypt.writeHeader zcrc pw rnd11 chk).2 ++
+          (LA.ZipCrypt.encLoop zcrc (LA.ZipCrypt.writeHeader zcrc pw rnd11 chk).1 payload).2 ++ trailing) st)
+      payload st' (12 + payload.length) := by
+  have hh : (LA.ZipCrypt.writeHeader zcrc pw rnd11 chk).2.length = 12 := by
+    simp only [LA.ZipCrypt.writeHeader, LA.ZipCrypt.encLoop_length]
+    simp [List.length_take]; omega
+  have hel := LA.ZipCrypt.encLoop_length zcrc (LA.ZipCrypt.writeHeader zcrc pw rnd11 chk).1 payload
+  have hc : ¬ (12 + payload.length < LA.ZipCrypt.headerSize ∨
+      ((LA.ZipCrypt.writeHeader zcrc pw rnd11 chk).2 ++
+          (LA.ZipCrypt.encLoop zcrc (LA.ZipCrypt.writeHeader zcrc pw rnd11 chk).1 payload).2 ++ trailing).length
+        < 12 + payload.length) := by
+    have : LA.ZipCrypt.headerSize = 12 := rfl
+    simp [List.length_append, hh, hel, this] <;> omega
+  have ht : ((LA.ZipCrypt.writeHeader zcrc pw rnd11 chk).2 ++
+      (LA.ZipCrypt.encLoop zcrc (LA.ZipCrypt.writeHeader zcrc pw rnd11 chk).1 payload).2 ++ trailing).take 12 =
+      (LA.ZipCrypt.writeHeader zcrc pw rnd11 chk).2 := by
+    rw [← hh]; simp [List.append_assoc, List.take_append_of_le_length]
+  have hd : (((LA.ZipCrypt.writeHeader zcrc pw rnd11 chk).2 ++
+      (LA.ZipCrypt.encLoop zcrc (LA.ZipCrypt.writeHeader zcrc pw rnd11 chk).1 payload).2 ++ trailing).drop 12).take
+        (12 + payload.length - 12) =
+      (LA.ZipCrypt.encLoop zcrc (LA.ZipCrypt.writeHeader zcrc pw rnd11 chk).1 payload).2 := by
+    rw [show 12 + payload.length - 12 = payload.length by omega, ← hel]
+    conv => lhs; arg 2; arg 1; rw [← hh]
+    simp [List.append_assoc, List.take_append_of_le_length]
+  simp only [readTraditional, hc, if_false, ht, hfound, (trad_header_check zcrc pw rnd11 chk).1, hd,
+    LA.ZipCrypt.decLoop_encLoop]
+  exact ⟨rfl, rfl, rfl, rfl⟩
+
+end winzip
 
 end LA.C20
